@@ -6,9 +6,9 @@
 cd "$(dirname "$0")"
 export GOFLAGS=-mod=mod GOPROXY=off GOSUMDB=off GOTOOLCHAIN=local CGO_ENABLED=0
 mkdir -p evidence replays tmp harness/bin
-cp /repo/go.sum harness/go.sum 2>/dev/null || true
+cp ${VERIF_REPO:-/repo}/go.sum harness/go.sum 2>/dev/null || true
 (cd harness && go build -o bin/ ./cmd/...) || echo "setup: some harness binaries failed to build"
-for g in harness/cmd/*/; do g=$(basename "$g"); [ -x harness/bin/$g ] && ./harness/bin/$g factgen -repo /repo -out lean/GIV/Gen >/dev/null; done
+for g in harness/cmd/*/; do g=$(basename "$g"); [ -x harness/bin/$g ] && ./harness/bin/$g factgen -repo ${VERIF_REPO:-/repo} -out lean/GIV/Gen >/dev/null; done
 targets=$(python3 - <<'PY'
 import json
 p = json.load(open("props.json"))
